@@ -86,6 +86,7 @@ def init_cases(draw):
         c["mode"] = draw(st.sampled_from(["fan_in", "fan_in", "fan_out"]))
         c["nl"] = draw(st.sampled_from(["leaky_relu", "leaky_relu", "leaky_relu", "relu", "tanh", "linear", "sigmoid", "selu", "conv2d", "conv1d"]))
         c["a"] = draw(st.sampled_from([0, 0.01, 0.5, 1.0, 2.0, -1.0, 3.0]))
+        c["a_np"] = draw(st.sampled_from([False, False, True]))     # the slope as a NumPy float64 (e.g. np.sqrt(5)): still a float
         c["defaults"] = draw(st.integers(0, 3)) == 0
     return c
 
@@ -143,13 +144,16 @@ def check_init(c, rec):
     rec.tag("ambient_" + amb)
 
     def fn(*a, **k):
-        if amb == "no_grad":
-            with sg.no_grad():
-                return raw_fn(*a, **k)
-        if amb == "retain_grads":
-            with sg.retain_grads():
-                return raw_fn(*a, **k)
-        return raw_fn(*a, **k)
+        try:
+            if amb == "no_grad":
+                with sg.no_grad():
+                    return raw_fn(*a, **k)
+            if amb == "retain_grads":
+                with sg.retain_grads():
+                    return raw_fn(*a, **k)
+            return raw_fn(*a, **k)
+        except Exception as e:  # noqa: BLE001 - every argument combination generated here is documented
+            raise Violation("raised", f"{name}{a[1:]}{k} raised {type(e).__name__}: {e}; {ctx}", region=name)
 
     if name == "uniform_":
         ret = fn(t) if c["defaults"] else fn(t, c["a"], c["b"])
@@ -169,7 +173,7 @@ def check_init(c, rec):
             ret = fn(t)
             mode, nl, a = "fan_in", "leaky_relu", 0
         else:
-            ret = fn(t, a=c["a"], mode=c["mode"], nonlinearity=c["nl"])
+            ret = fn(t, a=np.float64(c["a"]) if c.get("a_np") else c["a"], mode=c["mode"], nonlinearity=c["nl"])
             mode, nl, a = c["mode"], c["nl"], c["a"]
         gain = ref_gain(nl, a)
         fan = fan_in if mode == "fan_in" else fan_out
@@ -222,7 +226,7 @@ def struct_cases(draw):
     return {"which": draw(st.sampled_from(["bad_mode", "bad_nl", "rank1_fan", "gain"])),
             "init": draw(st.sampled_from(["kaiming_uniform_", "kaiming_normal_", "xavier_uniform_", "xavier_normal_"])),
             "nl": draw(st.sampled_from(list(GAINS) + ["leaky_relu"])), "a": draw(st.sampled_from([None, 0, 0.01, 0.2, 1, 2.5])),
-            "bad": draw(st.sampled_from(["fan_avg", "FAN_IN", "", "swish", "gelu", "ReLU"]))}
+            "bad": draw(st.sampled_from(["fan_avg", "FAN_IN", "", "swish", "gelu", "ReLU"])), "a_np": draw(st.booleans())}
 
 
 def check_struct(c, rec):
@@ -250,6 +254,9 @@ def check_struct(c, rec):
         raise Violation("bad_argument_accepted", f"{c['init']} accepted a rank-1 tensor (fan_in/fan_out undefined)")
     if w == "gain":
         a = c["a"]
+        if a is not None and c.get("a_np") and isinstance(a, float):
+            a = np.float64(a)
+            rec.tag("numpy_float_slope")
         got = init.calculate_gain(c["nl"], a) if a is not None else init.calculate_gain(c["nl"])
         want = ref_gain(c["nl"], 0.01 if a is None else a)
         if abs(got - want) > 1e-12:
